@@ -328,6 +328,17 @@ func (c *fctx) stmt(s ast.Stmt, en *env, lc *lctx, next kont) string {
 		return rec(0, en)
 	case *ast.ReturnStmt:
 		c.checkOrder(s)
+		if len(x.Results) == 0 && len(c.fi.named) > 0 { // [BitsCode] bare return: the current values of the named results
+			var vs []string
+			for _, rv := range c.fi.named {
+				v := en.lookup(rv)
+				if v == nil {
+					t.fail(s, "bare return: named result %s is not in scope", rv.Name())
+				}
+				vs = append(vs, v.name)
+			}
+			return lc.ret(c.retTerm(en, vs))
+		}
 		if len(x.Results) == 1 && len(c.fi.results) > 1 {
 			call, ok := ast.Unparen(x.Results[0]).(*ast.CallExpr)
 			if !ok {
@@ -711,8 +722,14 @@ func (t *Translator) emitFunc(fi *funcInfo) string {
 	if strings.Contains(rt, " ") && !strings.HasPrefix(rt, "(") {
 		rt = "(" + rt + ")"
 	}
+	prefix := ""
+	for i, rv := range fi.named { // [BitsCode] named results are locals that start at their zero value
+		var name string
+		en, name = c.declare(en, rv, fi.results[i])
+		prefix += fmt.Sprintf("let %s := %s in\n", name, fi.results[i].zero())
+	}
 	lc := &lctx{ret: func(v string) string { return "Ret " + v }}
-	body := c.stmts(fi.decl.Body.List, en, lc, kont{f: func(e *env) string {
+	body := prefix + c.stmts(fi.decl.Body.List, en, lc, kont{f: func(e *env) string {
 		if len(fi.results) > 0 {
 			t.fail(fi.decl, "control reaches the end of %s, which has results", fi.goName)
 		}
